@@ -4,7 +4,7 @@ import re
 
 from ..core import AnalysisError, norm
 from ..sim import check_reach
-from .common import (effects, paths_of, check_writers, check_callers, arg_by_name, named_call_sites)
+from .common import (check_zero_is_a_value, effects, paths_of, check_writers, check_callers, arg_by_name, named_call_sites)
 
 OB = 'core.wl.object.ObjectBase'
 MSGC = 'core.wl.message.Message'
@@ -167,6 +167,17 @@ def run(ctx):
     ctx.check(not probs, 'C03.2', 'create_object:destroy-iff-server-reuse', f_create.loc(),
               'implicit destroy is reached iff the id is present, its last incarnation is alive and server-allocated',
               'implicit destroy reached=%s in scenario %s' % ((probs[0][2], probs[0][1]) if probs else ('', '')))
+    # an object comes into being on every creation request except the two refused ones: an invalid id, and a live
+    # previous holder of the id that may not be replaced (a client id still alive, or the registry-on-id-2 collision)
+    def is_append(e):
+        return e.kind == 'call' and e.ftext.endswith('.append') and re.match(r'^self\.db\[\w+\]\.append$', cdb(e.ftext)) is not None
+    probs = check_reach(cpaths, is_append, m_create,
+                        lambda F: F['valid'] and (not F['present'] or not F['alive'] or (F['server'] and not (F['registry'] and F['id2']))),
+                        feasible=lambda F: F['present'] or not (F['alive'] or F['server']),
+                        universe=['valid', 'present', 'alive', 'server', 'registry', 'id2'])
+    ctx.check(not probs, 'C03.2', 'create_object:creates-iff-allowed', f_create.loc(),
+              'a creation request creates the object unless the id is invalid or its previous holder is alive and not replaceable',
+              'create_object appends=%s in scenario %s: a legal new id does not come into being (or an illegal one does)' % ((probs[0][2], probs[0][1]) if probs else ('', '')))
     nd2 = 0
     for p in cpaths:
         for e in p.events:
@@ -199,6 +210,12 @@ def run(ctx):
                 if ls and not ls[0]:
                     ctx.check('self.destroyed_obj.lifespan()' in t, 'C03.3', '__str__:lifespan-shown', f_str.loc(),
                               'the annotation shows the destroyed object\'s lifespan')
+                # the lifespan is a number that can be 0.0 (creation and delete_id with the same timestamp): it may be tested for
+                # None, never by truthiness
+                tr = [a.text for a, v in p.decisions if a.text in ('self.destroyed_obj.lifespan()', 'not self.destroyed_obj.lifespan()')
+                      or re.match(r'^(0(\.0)? (<|==) )?self\.destroyed_obj\.lifespan\(\)( (>|==) 0(\.0)?)?$', a.text)]
+                ctx.check(not tr, 'C03.3', '__str__:lifespan-tested-for-none-only', f_str.loc(), 'whether a lifespan is shown depends only on its being known (not None)',
+                          'Message.__str__ decides on `%s`: a lifespan of exactly 0.0 (creation and delete_id carry the same timestamp) is treated as unknown and the annotation loses it' % (tr[0] if tr else ''))
         else:
             ctx.violation('C03.3', '__str__:unconditional', f_str.loc(), 'Message.__str__ does not test destroyed_obj on path %s' % p.describe()[:160])
     ctx.floor('C03.3', ns, 2, 'returning paths of Message.__str__')
@@ -230,6 +247,8 @@ def run(ctx):
                   'owned_by_server() is %s (canonical %s), the protocol says id >= 0xff000000' % (norm(p.outcome[1]), c))
 
     # ---- C03.6 lifespan ----------------------------------------------------------------------------
+    check_zero_is_a_value(ctx, 'C03.6', 'a creation or destruction at time 0.0, a lifespan of 0.0, incarnation 0',
+                          lambda f: f.module.name in ('core.wl.object', 'core.wl.message', 'core.connection_impl'), floor=10)
     f_life = repo.func('ObjectBase.lifespan')
     lp = paths_of(repo, f_life)
     nl = 0
